@@ -226,6 +226,11 @@ def run(model: RepoModel, rep, tier: str):
                 and isinstance(n.value.func, ast.Attribute) and n.value.func.attr == "generate_and_save_analysis_summary"]
         saves = [c for c in walk_no_nested(fn_.node) if isinstance(c, ast.Call) and isinstance(c.func, ast.Attribute)
                  and c.func.attr == "save_method_summary_instance" and len(c.args) > 1 and isinstance(c.args[1], ast.Name)]
+        # the generated summary handed to the save directly (no name in between: nothing can touch it)
+        for c in walk_no_nested(fn_.node):
+            if isinstance(c, ast.Call) and isinstance(c.func, ast.Attribute) and c.func.attr == "save_method_summary_instance" and len(c.args) > 1 \
+                    and isinstance(c.args[1], ast.Call) and isinstance(c.args[1].func, ast.Attribute) and c.args[1].func.attr == "generate_and_save_analysis_summary":
+                ok_ctx = ok_ctx or (True, c)
         for g_ in gens:
             S = g_.targets[0].id
             for sv in saves:
@@ -263,11 +268,53 @@ def run(model: RepoModel, rep, tier: str):
     from .c08 import check_accumulating_loops
     check_accumulating_loops(model, rep, "C09.R4")
     check_call_site_budget(model, rep, "C09.R6", declare=True)
+    _r3_call_path_depth(model, rep)
     check_ceiling_snapshots(model, rep, "C09.R7", declare=True)
     from ..generic import check_shared_class_state
     rep.rule("C09.R8", "states, frames and spaces are per instance: a mutable object bound in a class body of the analysis core is a constant table, "
                        "never written through self (what one frame / state / space records would be visible in all others)", 0)
     check_shared_class_state(model, rep, "C09.R8", ["common_structs.py"] + sorted(r for r in model.modules if r.startswith("core/")))
+
+
+def _r3_call_path_depth(model: RepoModel, rep):
+    """The call path of a frame is its caller's call path extended by the call site; it is what separates two activations of the same
+    function.  The extension is guarded by the depth of the frame stack.  The stack starts with N frames (counted from the code: the
+    collector frame and the entry frame), so the guard has to be false at depth N (the entry frame has no caller) and true at depth
+    N + 1 (the first callee)."""
+    import operator as _op
+    GS_ = "core/global_semantics.py"
+    p3 = next((c for c in model.module(GS_).classes.values() if "init_compute_frame" in c.methods and "init_frame_stack" in c.methods), None)
+    if p3 is None:
+        raise AnalysisError("init_compute_frame / init_frame_stack vanished from global_semantics.py")
+    ifs, icf = p3.methods["init_frame_stack"], p3.methods["init_compute_frame"]
+    N = len([c for c in walk_no_nested(ifs.node) if isinstance(c, ast.Call) and isinstance(c.func, ast.Attribute) and c.func.attr in ("add", "push", "append")
+             and "stack" in norm(c.func.value)])
+    key = f"{GS_}::{icf.qualname}::every callee frame extends its caller's call path"
+    cfg = cfg_of(icf.node)
+    ext = [nd for nd in cfg.g.nodes if cfg.kind[nd] == "stmt" and isinstance(cfg.stmt[nd], ast.Assign) and any(
+        isinstance(t, ast.Attribute) and t.attr == "call_path" for t in cfg.stmt[nd].targets)]
+    OPS = {ast.Gt: _op.gt, ast.GtE: _op.ge, ast.Lt: _op.lt, ast.LtE: _op.le, ast.Eq: _op.eq, ast.NotEq: _op.ne}
+    if not ext or N == 0:
+        rep.unknown("C09.R3", key, GS_, icf.node.lineno, "call-path extension or initial stack not recognised")
+        return
+    verdict = None
+    for atom, truth in cfg.conditions_at(ext[0]):
+        if isinstance(atom, ast.Compare) and len(atom.ops) == 1 and type(atom.ops[0]) in OPS and isinstance(atom.left, ast.Call) and call_name(atom.left) == "len" \
+                and isinstance(atom.comparators[0], ast.Constant) and isinstance(atom.comparators[0].value, int):
+            fn, K = OPS[type(atom.ops[0])], atom.comparators[0].value
+            at_entry, at_callee = fn(N, K) == truth, fn(N + 1, K) == truth
+            verdict = (atom, at_entry, at_callee)
+    if verdict is None:
+        rep.unknown("C09.R3", key, GS_, cfg.stmt[ext[0]].lineno, "no stack-depth guard on the call-path extension")
+    elif verdict[2] and not verdict[1]:
+        rep.holds("C09.R3", key, GS_, verdict[0].lineno, f"`{norm(verdict[0])}`: false at depth {N} (entry frame), true at depth {N + 1} (first callee); the stack starts with {N} frames")
+    else:
+        rep.violation("C09.R3", key, GS_, verdict[0].lineno,
+                      f"the call path is extended only under `{norm(verdict[0])}`, but the stack starts with {N} frames (init_frame_stack): at depth {N + 1} -- "
+                      f"a function called directly from the entry -- the guard is {'true' if verdict[2] else 'false'}"
+                      + (f" and at depth {N} it is true" if verdict[1] else "")
+                      + ": such a frame keeps an empty call path, so its second activation produces the same path as the first for whatever it calls, the "
+                        "callee is skipped as 'path exists' and the first activation's summary (the other call site's argument) is reused")
 
 
 def check_copy_on_write(model: RepoModel, rep, RID: str, classes) -> int:
